@@ -602,7 +602,7 @@ class C10(engine.Property):
         obj = rng.choice(objs)
         name = rng.choice(ATTR_NAMES)
         r = rng.random()
-        refs = view.vertices() + view.edges()
+        refs = view.vertices() + view.edges() or objs
         if r < 0.08:
             # binary data: small and shared between attributes, or past the
             # size at which pickle writes bytes out of band (64 KiB)
